@@ -476,6 +476,28 @@ func shadowTemplates() []shadowTpl {
 		{"placed/macrolet-body", "(macrolet ([zm () 1])\n{CALL})", 2},
 		{"placed/assert-arg", "(assert\n{CALL})", 2},
 		{"placed/argument-of-user-function", "(defun zf (a) a)\n(zf\n{CALL})", 3},
+		// the call comes AFTER an earlier sibling of every kind a tree walk may treat specially (not descended into,
+		// descended into with a scope, leaf): leaving that sibling must not end the walk of the enclosing form
+		{"placed/after-sibling/quasiquote-template", "(list (quasiquote (za zb))\n{CALL})", 2},
+		{"placed/after-sibling/quasiquote-with-unquote", "(list (quasiquote (za (unquote (+ 1 2))))\n{CALL})", 2},
+		{"placed/after-sibling/quoted-list", "(list '(za zb)\n{CALL})", 2},
+		{"placed/after-sibling/lambda", "(list (lambda (zx) zx)\n{CALL})", 2},
+		{"placed/after-sibling/let", "(list (let ([zx 1]) zx)\n{CALL})", 2},
+		{"placed/after-sibling/handler-bind", "(list (handler-bind ([condition (lambda (c &rest d) 0)]) 1)\n{CALL})", 2},
+		{"placed/after-sibling/labels", "(list (labels ([zg () 1]) (zg))\n{CALL})", 2},
+		{"placed/after-sibling/macrolet", "(list (macrolet ([zm () 1]) (zm))\n{CALL})", 2},
+		{"placed/after-sibling/function-ref", "(list #'list\n{CALL})", 2},
+		{"placed/after-sibling/expr-shorthand", "(list #^(+ % 1)\n{CALL})", 2},
+		{"placed/after-sibling/string", "(list \"za\"\n{CALL})", 2},
+		{"placed/after-sibling/vector-literal", "(list [1 2]\n{CALL})", 2},
+		{"placed/after-sibling/empty-list", "(list ()\n{CALL})", 2},
+		{"placed/after-sibling/dotimes", "(list (dotimes (zi 1) zi)\n{CALL})", 2},
+		{"placed/after-sibling/cond", "(list (cond (false 1) (else 2))\n{CALL})", 2},
+		{"placed/after-sibling/thread-first", "(list (thread-first 1 (list))\n{CALL})", 2},
+		{"placed/let-body-after-template-binding", "(let ([zt (quasiquote (za zb))])\n{CALL})", 2},
+		{"placed/defun-body-after-template", "(defun zf () (quasiquote (za)))\n(defun zg () (list (quasiquote (za))\n{CALL}))\n(zg)", 3},
+		{"placed/progn-after-template", "(progn (quasiquote (za zb))\n{CALL})", 2},
+		{"placed/deeper-after-template", "(list (list (quasiquote (za))) (list 1\n{CALL}))", 2},
 	}
 	return t
 }
